@@ -24,6 +24,16 @@ func (g *Gen) randomMapping() (mparams, bool) {
 	}
 	pb := m.ToProto()
 	p := mparams{kind: kind, gamma: pb.Gamma, off: pb.IndexOffset, fromAlpha: true, alpha: alpha}
+	if r.Bool(15) {
+		// a whole number n of bins per octave (gamma = 2^(1/n)): the bin edges of the interpolated mappings
+		// fall on the powers of two, where the reconstruction of a float from exponent and significand
+		// is most sensitive to rounding
+		n := r.Range(2, 4000)
+		p.gamma = math.Pow(2, 1/float64(n))
+		p.off = []float64{0, 0, float64(n), -float64(n), 1 / math.Log2(p.gamma), 0.5}[r.Intn(6)]
+		p.fromAlpha = false
+		return p, true
+	}
 	if r.Bool(40) { // rebuilt from the base and an arbitrary offset, as decoders do
 		p.off = []float64{0, 0.5, -0.5, 1 / math.Log2(pb.Gamma), 1e3, -1e3, 1e6, -1e6, 2e9, -2e9, 123.456}[r.Intn(11)]
 		p.fromAlpha = false
@@ -75,6 +85,14 @@ func (g *Gen) genMappingHistory() {
 		}
 		if v >= lo && v <= hi {
 			g.emit("mpchk %s idx %s %d", pre(), hexF(v), m.Index(v))
+		}
+	}
+	// the bins around a few powers of two
+	for k := 0; k < 8; k++ {
+		e := int(math.Ceil(math.Log2(lo))) + 1 + r.Intn(int(math.Log2(hi)-math.Log2(lo))-1)
+		i := m.Index(math.Ldexp(1, e)) + r.Range(-1, 1)
+		if i > iLo && i < iHi {
+			g.emit("mpchk %s lb %d %s", pre(), i, hexF(m.LowerBound(i)))
 		}
 	}
 	g.emit("mscan %s %d %d", pre(), r.U64()>>1, probes*5)
